@@ -19,7 +19,7 @@ import asyncio
 import itertools
 import struct
 
-from common import Coverage, Driver, hx, rng, unhx, violation
+from common import Coverage, Driver, coq_eval, hx, rng, unhx, violation
 from ref import hap_pdu as ref
 from ref.tlv8 import ref_encode as tlv_encode
 
@@ -409,6 +409,124 @@ def gen_enc_direct(tier, r):
     return cases
 
 
+# ---------------------------------------------------------------- BLE: request histories on ONE real client object
+# The real AIOHomeKitBleakClient (only the radio - write_gatt_char / read_gatt_char - is replaced) computes the fragment
+# size itself (determine_fragment_size, with whatever caching it does) over a history of requests on the same
+# connection: plain before pair-verify, encrypted afterwards, session resets, several characteristics.
+HIST_LENS = [0, 80, 300]
+HIST_MTUS = [None, 158, 247, 515, 100, 185]          # None: whatever the client reports without a link (HAP minimum)
+HIST_MWWR = [None, None, 20, 250, 0, 120]            # backend's max_write_without_response_size
+
+
+class HistChar:
+    """Duck-typed BleakGATTCharacteristic."""
+
+    def __init__(self, handle, mwwr):
+        self.handle = handle
+        self.uuid = "00000000-0000-1000-8000-0026bb765291"
+        self.properties = ["read", "write"]
+        self.max_write_without_response_size = mwwr
+        self.descriptors = []
+
+    def get_descriptor(self, _):
+        return None
+
+
+def gen_ble_hist(tier, r):
+    steps = [(ch, enc, ln) for ch in (0, 1) for enc in (False, True) for ln in HIST_LENS]
+    cases = []
+    for n in (1, 2, 3):
+        for h in itertools.product(steps, repeat=n):
+            k = len(cases)
+            cases.append(dict(steps=list(h), mtu=HIST_MTUS[k % 6], mwwr=HIST_MWWR[(k // 6 + k) % 6], stream="hist"))
+    for _ in range(300 if tier == "quick" else 5000):
+        n = r.randrange(4, 9)
+        cases.append(dict(steps=[(r.randrange(3), r.random() < 0.5, r.choice([0, 1, 60, 74, 75, 80, 90, 91, 97, 300, 1000])) for _ in range(n)],
+                          mtu=r.choice(HIST_MTUS + [r.randrange(100, 520)]), mwwr=r.choice(HIST_MWWR), stream="hist-random"))
+    return cases
+
+
+async def impl_ble_hist(case, serial):
+    import aiohomekit.controller.ble.client as bc
+    from aiohomekit.controller.ble.bleak import AIOHomeKitBleakClient
+    from aiohomekit.controller.ble.key import DecryptionKey, EncryptionKey
+    from aiohomekit.pdu import OpCode
+
+    st = dict(writes=[], script=[])
+
+    class Radio(AIOHomeKitBleakClient):
+        async def write_gatt_char(self, char, data, response=None):
+            st["writes"].append(bytes(data))
+
+        async def read_gatt_char(self, char):
+            return bytearray(st["script"].pop(0)())
+
+    client = Radio(f"C1:7A:{(serial >> 24) & 255:02X}:{(serial >> 16) & 255:02X}:{(serial >> 8) & 255:02X}:{serial & 255:02X}")
+    if case["mtu"] is not None:
+        client.__dict__["mtu_size"] = case["mtu"]        # the link's negotiated MTU (cached_property slot)
+    mtu = client.mtu_size
+    chars = [HistChar(0x21 + 4 * i, case["mwwr"]) for i in range(3)]
+    ek = dk = None
+    aw = ar = None
+    out = []
+    for pos, (ch, enc, ln) in enumerate(case["steps"]):
+        if enc and ek is None:                              # pair-verify done: fresh session keys
+            ek, dk, aw, ar = EncryptionKey(KEY_W), DecryptionKey(KEY_R), ref.Aead(KEY_W), ref.Aead(KEY_R)
+        if not enc:                                         # session reset / unauthenticated access
+            ek = dk = aw = ar = None
+        c0 = ek.counter if enc else 0
+        d0 = dk.counter if enc else 0
+        st["writes"].clear()
+        body = body_of(ln, pos + ch)
+        iid = IIDS[(pos + ln) % len(IIDS)]
+        op = BLE_OPS[(pos + ch) % len(BLE_OPS)]
+        info = {}
+
+        def respond():
+            plains = [aw.open(c0 + j, w) if enc else w for j, w in enumerate(st["writes"])]
+            p0 = plains[0] if plains else None
+            info["tid"] = p0[2] if p0 is not None and len(p0) >= 3 else 0
+            f = bytes([0x02, info["tid"], 0])
+            return ar.seal(d0, f) if enc else f
+        st["script"] = [respond]
+        try:
+            status, rbody = await bc.ble_request(client, ek, dk, OpCode(op), chars[ch], iid, body)
+            read = f"ok {int(status.value)} {hx(rbody)}"
+        except Exception as e:  # noqa
+            read = exc_token(e)
+        writes = list(st["writes"])
+        plains = [aw.open(c0 + j, w) if enc else w for j, w in enumerate(writes)]
+        tid = info.get("tid", plains[0][2] if plains and plains[0] is not None and len(plains[0]) >= 3 else 1)
+        if enc:
+            wr = [toy(c0 + j, p) if p is not None else b"\xff" for j, p in enumerate(plains)]
+            wctr = ek.counter
+        else:
+            wr, wctr = writes, len(writes)
+        out.append(dict(ch=ch, enc=enc, ln=ln, op=op, iid=iid, body=body, c0=c0, tid=tid, read=read, sizes=[len(w) for w in writes],
+                        plains=plains, impl_w=f"ok {wctr} {frs_str(wr)}"))
+    return mtu, out
+
+
+def oracle_ble_hist(case, mtu, o):
+    """Every GATT write fits the ATT payload negotiated for the connection - MTU-3, or the backend's larger
+    max_write_without_response_size - whatever was sent before; the accessory reassembles the request."""
+    bad = []
+    budget = max(mtu - 3, case["mwwr"] or 0)
+    if any(sz > budget for sz in o["sizes"]) or not o["sizes"]:
+        bad.append(("ble-session:write-exceeds-negotiated", f"GATT write sizes {o['sizes'][:6]} exceed the negotiated ATT payload {budget} "
+                    f"(mtu {mtu}, max_write_without_response {case['mwwr']}, {'secure session' if o['enc'] else 'plain'})"))
+    if any(p is None for p in o["plains"]):
+        bad.append(("ble-session:nonce-sequence", "a written fragment does not open under the accessory's next nonce"))
+    else:
+        got = ref.acc_reassemble(o["plains"])
+        if got is None or (got[0], got[2], got[3]) != (o["op"], o["iid"], bytes(o["body"])):
+            bad.append(("ble-session:reassembly", f"accessory reassembles {None if got is None else (got[0], got[1], got[2], len(got[3]))} "
+                        f"instead of op {o['op']} iid {o['iid']} {len(o['body'])} bytes"))
+    if o["read"] != "ok 0 -":
+        bad.append(("ble-session:response", f"header-only success response read as {o['read'][:60]}"))
+    return bad
+
+
 # ---------------------------------------------------------------- CoAP
 OK_CTL = [0x02, 0x12, 0x82, 0x03, 0xF3]
 BAD_CTL = [0x00, 0x04, 0x0E, 0x06, 0x0A, 0xFD]
@@ -629,6 +747,22 @@ def gen_coap_dup(tier, r):
         n = r.randrange(5, 13)
         alpha = [(r.choice([1, 1, 2, 3]), r.choice([7, 52, 53, 255, 256, 65535])) for _ in range(r.choice([1, 2, 3, 4]))]
         cases.append(dict(ids=[r.choice(alpha) for _ in range(n)], vec=[r.choice(DUP_KINDS) for _ in range(n)], stream="dupids-random"))
+    # (aid, iid) missing from the controller's accessory database: every non-empty subset of the keys of a batch of
+    # 1..4 distinct ids (and of batches with a repeated key), unknown item first / in the middle / last
+    distinct = [(1, 51), (1, 52), (1, 53), (2, 52)]
+    for n in range(1, 5):
+        for idv in [distinct[:n]] + ([list(v) for v in itertools.product(DUP_ALPHA, repeat=n) if len(set(v)) < n] if n in (2, 3) else []):
+            keys = sorted(set(idv))
+            for mask in range(1, 1 << len(keys)):
+                unknown = [k for b, k in enumerate(keys) if mask >> b & 1]
+                for vec in (["okN"] * n, [["err", "okN", "ok0", "err"][(i + mask) % 4] for i in range(n)]):
+                    cases.append(dict(ids=list(idv), vec=vec, unknown=unknown, stream="unknown-write"))
+    for _ in range(150 if tier == "quick" else 3000):
+        n = r.randrange(2, 9)
+        ids = [(r.choice([1, 2]), r.choice([51, 52, 53, 54, 999])) for _ in range(n)]
+        keys = sorted(set(ids))
+        cases.append(dict(ids=ids, vec=[r.choice(DUP_KINDS) for _ in range(n)], unknown=r.sample(keys, r.randrange(1, len(keys) + 1)),
+                          stream="unknown-write-random"))
     return cases
 
 
@@ -648,6 +782,7 @@ async def impl_coap_dup(case):
     from aiohomekit.controller.coap.connection import CoAPHomeKitConnection, EncryptionContext
 
     ids, vec, n = case["ids"], case["vec"], len(case["ids"])
+    unknown = {tuple(k) for k in case.get("unknown", [])}
     log = []
 
     async def post_bytes(payload, timeout=16.0):
@@ -671,7 +806,7 @@ async def impl_coap_dup(case):
             return None
 
         def find_characteristic_by_aid_iid(self, aid, iid):
-            return Char()
+            return None if (aid, iid) in unknown else Char()
 
     ectx = object.__new__(EncryptionContext)
     ectx.post_bytes = post_bytes
@@ -692,7 +827,7 @@ async def impl_coap_dup(case):
                 d = await conn.write_characteristics([(a, i, dup_write_value(p, i)) for p, (a, i) in enumerate(ids)])
             tok = dict_canon(d)
         except Exception as e:  # noqa
-            tok = "crash" if isinstance(e, IndexError) else exc_token(e)
+            tok = "crash" if isinstance(e, (IndexError, AttributeError)) else exc_token(e)
         out[name] = dict(result=tok, wire=[hx(q) for q, _ in log[n0:]], resp=[hx(a) for _, a in log[n0:]])
     return out
 
@@ -706,11 +841,15 @@ def oracle_coap_dup(case, out):
     """Position i of the request is paired with what the accessory answered for position i; the accessory is asked
     exactly the requested positions, in order.  A Python dict holds one entry per (aid, iid): for a repeated key the
     read result carries the outcome of its LAST position; the error-only results (write / subscribe / unsubscribe)
-    carry the status of its last FAILED position and no entry for keys none of whose positions failed."""
+    carry the status of its last FAILED position and no entry for keys none of whose positions failed.
+    A write batch naming an (aid, iid) the controller's database lacks may be refused as a whole (exception, nothing on the
+    wire); if anything is sent, it must be the complete batch."""
     bad = []
     ids, vec = case["ids"], case["vec"]
     exp = [dup_expected(vec[i], i, ids[i][1]) for i in range(len(ids))]
     for name, o in out.items():
+        if name == "write" and case.get("unknown") and not o["wire"] and not o["result"].startswith("ok"):
+            continue     # a batch naming a characteristic the controller does not know is refused before anything is sent
         got_w = [ref.coap_parse_request(unhx(w)) for w in o["wire"]]
         if got_w != [dup_wire_expected(case, name)]:
             bad.append((f"coap-ids:{name}-wire", f"{name} of ids {ids}: the accessory is asked "
@@ -831,6 +970,202 @@ def oracle_coap(case, out):
     return bad
 
 
+# ---------------------------------------------------------------- extraction cross-check (vm_compute inside Coq)
+XC_QUOTA = dict(enc=4, wr=4, rd=6, cenc=3, cdec=4, cexit=3)     # + up to 3 acc and 3 cparse derived requests: <= 30
+XC_MAXLINE = 2400                                               # request line length: every Gallina literal < ~1200 elements
+XC_PRELUDE = """From Coq Require Import List NArith.
+From AHK Require Import Lib.Res Lib.ByteStr Model.Pdu.
+Import ListNotations.
+Local Open Scope N_scope.
+Definition xlen {A} (l : list A) : N := N.of_nat (length l).
+Definition fl_b (b : list N) : list N := xlen b :: b.
+Definition fl_ll (l : list (list N)) : list N := xlen l :: flat_map fl_b l.
+Definition fl_cres (r : cres) : list N := match r with CBody b => 0 :: fl_b b | CStatus s => [1; s] end.
+Definition show_res {A} (f : A -> list N) (r : res perr A) : list N :=
+  match r with Ok a => 0 :: f a | Err ValueError => [1] | Err EncryptionError => [2] | Err Starved => [3]
+  | Crash => [4] | OutOfFuel => [5] end.
+Definition show_enc := show_res fl_ll.
+Definition show_wr := show_res (fun wc : list (list N) * N => snd wc :: fl_ll (fst wc)).
+Definition show_rd := show_res (fun x : N * list N * list (list N) * N =>
+  let '(st, body, rest, c) := x in st :: c :: xlen rest :: fl_b body).
+Definition show_acc (o : option (N * N * N * list N)) : list N :=
+  match o with None => [0] | Some (op, t, i, b) => 1 :: op :: t :: i :: fl_b b end.
+Definition show_cenc := show_res fl_b.
+Definition show_cdec := show_res (fun l : list cres => xlen l :: flat_map fl_cres l).
+Definition show_cexit := show_res (fun l : list (N * cres) => xlen l :: flat_map (fun kr => fst kr :: fl_cres (snd kr)) l).
+Definition show_cparse (o : option (list (N * N * N * list N))) : list N :=
+  match o with None => [0]
+  | Some l => 1 :: xlen l :: flat_map (fun x : N * N * N * list N => let '(op, t, i, b) := x in op :: t :: i :: fl_b b) l end.
+Definition acc_of (opn : N -> list N -> option (list N)) (ctr : N) (fr : list (list N)) :=
+  match open_seq opn ctr fr with None => None | Some ps => acc_reassemble ps end.
+Definition ids_upto (n : nat) : list N := map N.of_nat (seq 0 n).
+Definition cparse_of (d : list N) := coap_acc_parse (S (length d)) d.
+"""
+XC_RES = {"ok": 0, "err value": 1, "err enc": 2, "err starved": 3, "crash": 4, "fuel": 5}
+
+
+def gal_bytes(b):
+    return "[" + "; ".join(str(x) for x in bytes(b)) + "]"
+
+
+def gal_list(items):
+    return "[" + "; ".join(items) + "]"
+
+
+def gal_cres(tok):
+    k, v = tok.split(":")
+    return f"CBody {gal_bytes(unhx(v))}" if k == "b" else f"CStatus {int(v)}"
+
+
+def xc_term(line):
+    """The Gallina term evaluating request `line` with the SAME model function ocaml/drv_c17.ml calls for it."""
+    w = line.split()
+    k = w[0]
+    if k == "enc":
+        fs, op, tid, iid, d = w[1:]
+        return f"show_enc (ble_encode {int(fs)}%nat {int(op)} {int(tid)} {int(iid)} {gal_bytes(unhx(d))})"
+    if k == "wr":
+        m, ctr, fs, op, tid, iid, d = w[1:]
+        return (f"show_wr (ble_write {'seal_plain' if m == 'p' else 'toy_seal'} {int(ctr)} {int(fs)}%nat {int(op)} {int(tid)} "
+                f"{int(iid)} {gal_bytes(unhx(d))})")
+    if k == "rd":
+        m, ctr, tid = w[1:4]
+        return (f"show_rd (read_pdu {'open_plain' if m == 'p' else 'toy_open'} {int(ctr)} {int(tid)} "
+                f"{gal_list(gal_bytes(unhx(f)) for f in w[4:])})")
+    if k == "acc":
+        m, ctr = w[1:3]
+        return f"show_acc (acc_of {'open_plain' if m == 'p' else 'toy_open'} {int(ctr)} {gal_list(gal_bytes(unhx(f)) for f in w[3:])})"
+    if k == "cenc":
+        op, iids, datas = w[1:]
+        il = [] if iids == "." else iids.split(",")
+        dl = [] if datas == "." else datas.split(",")
+        return (f"show_cenc (coap_encode_all {int(op)} {gal_list(str(int(i)) for i in il)} "
+                f"{gal_list(gal_bytes(unhx(d)) for d in dl)})")
+    if k == "cdec":
+        return f"show_cdec (coap_decode_all {int(w[1])} {gal_bytes(unhx(w[2]))})"
+    if k == "cexit":
+        fn = "coap_exit_all" if w[1] == "all" else "coap_exit_errors"
+        return f"show_cexit ({fn} (ids_upto {int(w[2])}%nat) {gal_list(gal_cres(t) for t in w[3:])})"
+    if k == "cparse":
+        return f"show_cparse (cparse_of {gal_bytes(unhx(w[1]))})"
+    raise ValueError("no Gallina rendering for request kind " + k)
+
+
+def xc_flat(kind, ans):
+    """The driver's answer line as the flat number list the show_* helper of that request kind produces."""
+    def fb(h):
+        b = unhx(h)
+        return [len(b)] + list(b)
+
+    def fcres(tok):
+        k, v = tok.split(":")
+        return [0] + fb(v) if k == "b" else [1, int(v)]
+
+    t = ans.split(" ")
+    if kind in ("acc", "cparse"):
+        if ans == "none":
+            return [0]
+        if t[0] != "some":
+            return None
+        if kind == "acc":
+            return [1, int(t[1]), int(t[2]), int(t[3])] + fb(t[4])
+        items = [x for x in t[1:] if x != "."]
+        out = [1, len(items)]
+        for it in items:
+            op, tid, iid, h = it.split(":")
+            out += [int(op), int(tid), int(iid)] + fb(h)
+        return out
+    if t[0] != "ok":
+        return [XC_RES[ans]] if ans in XC_RES else None
+    rest = [x for x in t[1:] if x != "."]
+    if kind == "enc":
+        return [0, len(rest)] + [y for f in rest for y in fb(f)]
+    if kind == "wr":
+        return [0, int(rest[0]), len(rest) - 1] + [y for f in rest[1:] for y in fb(f)]
+    if kind == "rd":
+        st, body, nleft, ctr = rest
+        return [0, int(st), int(ctr), int(nleft)] + fb(body)
+    if kind == "cenc":
+        return [0] + fb(rest[0])
+    if kind == "cdec":
+        return [0, len(rest)] + [y for r in rest for y in fcres(r)]
+    if kind == "cexit":
+        out = [0, len(rest)]
+        for kr in rest:
+            k, r = kr.split("=")
+            out += [int(k)] + fcres(r)
+        return out
+    return None
+
+
+def xc_sample(stream):
+    """Deterministic sample of the run's (request, answer) stream: per request kind, round-robin over the answer
+    classes (and plain / sealed mode) seen for that kind, positions spread over the class; small requests only."""
+    by_kind = {}
+    for line, ans in stream:
+        k = line.split(" ", 1)[0]
+        if k not in XC_QUOTA or len(line) > XC_MAXLINE or len(ans) > XC_MAXLINE + 600 or xc_flat(k, ans) is None:
+            continue
+        cls = ans if not ans.startswith("ok") else "ok"
+        if k == "wr" or (k == "rd" and cls == "ok"):
+            cls += line[2:5]
+        if k == "cexit":
+            cls += line[5:10]
+        by_kind.setdefault(k, {}).setdefault(cls, []).append((line, ans))
+    sample = []
+    for k in sorted(XC_QUOTA):
+        classes = by_kind.get(k, {})
+        names = sorted(classes, key=lambda nm: (not nm.startswith("ok"), nm))
+        picked, rnd = [], 0
+        while len(picked) < XC_QUOTA[k] and names and rnd < 8:
+            for nm in names:
+                lst = classes[nm]
+                cand = lst[((2 * rnd + 1) * len(lst)) // 16 % len(lst)]
+                if cand not in picked and len(picked) < XC_QUOTA[k]:
+                    picked.append(cand)
+            rnd += 1
+        sample += picked
+    return sample
+
+
+def xc_derived(drv_batch, sample):
+    """acc / cparse are driver request kinds the correspondence streams do not use: exercise them on the sampled
+    wr / cenc answers (the accessory's view of what the model wrote), plus one rejected variant each."""
+    lines = []
+    wrs = [(l.split(" "), a.split(" ")) for l, a in sample if l.startswith("wr ") and a.startswith("ok ")]
+    for j, (lw, aw) in enumerate(wrs[:2] + wrs[:1]):
+        ctr, frs = int(lw[2]), [x for x in aw[2:] if x != "."]
+        if j == 2 and lw[1] == "t":
+            ctr += 1                                                     # sealed: wrong nonce -> none
+        elif j == 2 and frs:                                             # plain: missing / surplus fragment -> none
+            frs = frs[:-1] if len(frs) > 1 else frs + ["80" + frs[0][4:6] + "ee"]
+        lines.append(" ".join(["acc", lw[1], str(ctr)] + frs))
+    ces = [a.split(" ")[1] for l, a in sample if l.startswith("cenc ") and a.startswith("ok ")]
+    for j, h in enumerate(ces[:2] + ces[:1]):
+        lines.append("cparse " + (h if j < 2 or h == "-" else (h[:-2] or "-")))      # j == 2: truncated batch
+    lines = [l for l in lines if len(l) <= XC_MAXLINE]
+    return list(zip(lines, drv_batch(lines))) if lines else []
+
+
+def vm_crosscheck(ctx, sample):
+    """Evaluate the sampled requests with vm_compute inside Coq (same model functions as ocaml/drv_c17.ml calls) and
+    compare the full structured result with what the extracted OCaml driver answered: takes extraction and the
+    hand-written driver glue out of the single-point-of-trust position.  Returns (n_requests, [disagreement, ..])."""
+    import re
+    body = [XC_PRELUDE] + [f"Eval vm_compute in ({xc_term(line)})." for line, _ in sample]
+    out = coq_eval(ctx["verif"], "C17", "crosscheck", "\n".join(body) + "\n", timeout=300)
+    blocks = re.split(r"^\s*= ", out, flags=re.M)[1:]
+    bad = []
+    if len(blocks) != len(sample):
+        bad.append(dict(request="*", driver=f"{len(sample)} requests", vm_compute=f"{len(blocks)} results"))
+    for (line, ans), blk in zip(sample, blocks):
+        got = [int(x) for x in re.findall(r"\d+", blk.rsplit(":", 1)[0])]
+        want = xc_flat(line.split(" ", 1)[0], ans)
+        if want is None or got != want:
+            bad.append(dict(request=line[:300], driver=ans[:300], vm_compute=" ".join(blk.split())[:300]))
+    return len(sample), bad
+
+
 # ---------------------------------------------------------------- run
 def run(ctx):
     import logging
@@ -844,6 +1179,15 @@ def run(ctx):
 
 def _run(ctx, tier, seed):
     drv = Driver(ctx["driver"])
+    xc_stream = []                          # every (request, answer) of this run, for the vm_compute cross-check
+    drv_batch = drv.batch
+
+    def recording_batch(lines):
+        lines = list(lines)
+        ans = drv_batch(lines)
+        xc_stream.extend(zip(lines, ans))
+        return ans
+    drv.batch = recording_batch
     cov = Coverage("ble: distinct (fs, body, mode, response script) for which at least one GATT write happened or an error "
                    "was raised; enc: distinct arguments; coap: distinct (request, response) with a non-empty response")
     viols = []
@@ -921,6 +1265,43 @@ def _run(ctx, tier, seed):
                  ble_nfrags=min(len(o["writes"]), 12) if len(o["writes"]) < 12 else "12+", ble_read=" ".join(o["read"].split(" ")[:2]) if not o["read"].startswith("ok") else "ok",
                  ble_fault=faults, ble_resp_frags=len(c["resp"]["lens"]))
 
+    # ---- ble histories on one real client object
+    hist_cases = gen_ble_hist(tier, rng(seed, "c17hist"))
+
+    async def all_hist():
+        return [await impl_ble_hist(c, i) for i, c in enumerate(hist_cases)]
+    houts = asyncio.run(all_hist())
+    hl = []
+    for c, (mtu, outs_) in zip(hist_cases, houts):
+        for o in outs_:
+            hl.append(f"swr {'t' if o['enc'] else 'p'} {o['c0']} {mtu} {c['mwwr'] or 0} {o['op']} {o['tid']} {o['iid']} {hx(o['body'])}")
+    hm = drv.batch(hl)
+    j = 0
+    for ci, (c, (mtu, outs_)) in enumerate(zip(hist_cases, houts)):
+        for pos, o in enumerate(outs_):
+            m = hm[j]
+            j += 1
+            desc = dict(stream=c["stream"], mtu=mtu, max_write_without_response=c["mwwr"], failing_step=pos,
+                        history=[dict(char=ch, session="encrypted" if e else "plain", body_len=ln) for ch, e, ln in c["steps"][:pos + 1]])
+            orc = oracle_ble_hist(c, mtu, o)
+            for slug, text in orc:
+                add_v(slug, f"step {pos} of history {[('c%d' % ch) + ('E' if e else 'P') + str(ln) for ch, e, ln in c['steps'][:pos + 1]]}: " + text,
+                      True, case=desc, impl_sizes=o["sizes"][:40], impl_read=o["read"][:100])
+            impl_w = o["impl_w"] if not (o["plains"] == [] and o["read"] in ("crash", "err value")) else o["read"]
+            if not o["enc"]:
+                # the plain model counts writes from 0
+                pass
+            if impl_w != m and not orc:
+                add_v("ble-session:model-mismatch", f"step {pos} of history {c['steps'][:pos + 1]} (mtu {mtu}): writes {impl_w[:100]} != model {m[:100]}",
+                      False, case=desc, impl=impl_w[:2000], model=m[:2000],
+                      broken="correspondence Model/Pdu.v ble_session_write/det_fs <-> ble/bleak.py determine_fragment_size + ble/client.py _write_pdu")
+            prev_plain_same_char = any((not e) and ch == o["ch"] for ch, e, _ in c["steps"][:pos])
+            cov.case(f"h{ci},{pos}", True,
+                     sample=dict(stream="ble:" + c["stream"], mtu=mtu, mwwr=c["mwwr"], history=[(ch, "E" if e else "P", ln) for ch, e, ln in c["steps"]],
+                                 step=pos, sizes=o["sizes"][:6]) if j % 2503 == 11 else None,
+                     hist_len=len(c["steps"]), hist_mtu=mtu, hist_mwwr=c["mwwr"], hist_step_session="enc" if o["enc"] else "plain",
+                     hist_enc_after_plain_same_char=bool(o["enc"] and prev_plain_same_char))
+
     # ---- coap
     coap_cases = gen_coap(tier, rng(seed, "c17coap"))
 
@@ -986,14 +1367,19 @@ def _run(ctx, tier, seed):
     for c, o in zip(dup_cases, douts):
         for nm in names:
             want = dup_wire_expected(c, nm)
-            l_enc.append(f"cenc {PATH_OPS[nm]} {','.join(str(w[2]) for w in want)} {','.join(hx(w[3]) for w in want)}")
+            if nm == "write":
+                unk = {tuple(k) for k in c.get("unknown", [])}
+                flags = ",".join("0" if tuple(k) in unk else "1" for k in c["ids"])
+                l_enc.append(f"cwr {PATH_OPS[nm]} {flags} {','.join(str(w[2]) for w in want)} {','.join(hx(w[3]) for w in want)}")
+            else:
+                l_enc.append(f"cenc {PATH_OPS[nm]} {','.join(str(w[2]) for w in want)} {','.join(hx(w[3]) for w in want)}")
             l_dec.append(f"cdec 0 {o[nm]['resp'][0] if o[nm]['resp'] else '-'}")
     m_enc, m_dec = drv.batch(l_enc), drv.batch(l_dec)
     l_exit = [f"cexit {'all' if nm == 'read' else 'err'} {len(c['ids'])} {m_dec[4 * ci + ni][3:]}" if m_dec[4 * ci + ni].startswith("ok") else "bad"
               for ci, c in enumerate(dup_cases) for ni, nm in enumerate(names)]
     m_exit = drv.batch(l_exit)
     for ci, (c, o) in enumerate(zip(dup_cases, douts)):
-        desc = dict(stream=c["stream"], ids=c["ids"], per_position_outcomes=c["vec"],
+        desc = dict(stream=c["stream"], ids=c["ids"], per_position_outcomes=c["vec"], unknown_to_controller=c.get("unknown", []),
                     accessory="answers wire position j with value a0+j|iid (okN), empty (ok0), status 1+j%6 (err), tid+1 (wtid), control 0 (wctl)")
         orc = oracle_coap_dup(c, o)
         for slug, text in orc:
@@ -1001,6 +1387,8 @@ def _run(ctx, tier, seed):
         for ni, nm in enumerate(names):
             j = 4 * ci + ni
             wire = ("ok " + o[nm]["wire"][0]) if len(o[nm]["wire"]) == 1 else f"{len(o[nm]['wire'])} requests"
+            if not o[nm]["wire"] and o[nm]["result"] == "crash":
+                wire = "crash"
             if wire != m_enc[j] and not any(sl == f"coap-ids:{nm}-wire" for sl, _ in orc):
                 add_v(f"coap-ids:{nm}-wire:model-mismatch", f"{nm} of ids {c['ids']}: sent {wire[:100]} != model {m_enc[j][:100]}", False,
                       case=desc, impl=wire[:1000], model=m_enc[j][:1000],
@@ -1012,10 +1400,26 @@ def _run(ctx, tier, seed):
                       broken="correspondence Model/Pdu.v coap_decode_all + zip_results <-> coap/connection.py")
         nrep = len(c["ids"]) - len(set(map(tuple, c["ids"])))
         iid_rep = len(c["ids"]) - len({k[1] for k in c["ids"]})
-        cov.case(f"u{c['ids']},{c['vec']}", True,
+        cov.case(f"u{c['ids']},{c['vec']},{c.get('unknown')}", True,
                  sample=dict(stream="coap:" + c["stream"], ids=c["ids"], outcomes=c["vec"], read=o["read"]["result"][:80]) if ci % 1501 == 7 else None,
+                 dup_stream=c["stream"], dup_unknown_keys=len(c.get("unknown", [])), dup_write=o["write"]["result"].split(" ")[0],
                  dup_n=len(c["ids"]), dup_repeated_keys=min(nrep, 4), dup_repeated_iids=min(iid_rep, 4),
                  dup_repeat_followed=any(c["ids"][i][1] in [k[1] for k in c["ids"][:i]] and i + 1 < len(c["ids"]) for i in range(len(c["ids"]))))
+
+    # ---- extraction cross-check: a sample of the requests above, re-evaluated with vm_compute inside Coq
+    if not ctx.get("replay"):
+        xs = xc_sample(xc_stream)
+        xs += xc_derived(drv_batch, xs)
+        n_xc, bad_xc = vm_crosscheck(ctx, xs)
+        kinds = {}
+        for l, _ in xs:
+            kinds[l.split(" ", 1)[0]] = kinds.get(l.split(" ", 1)[0], 0) + 1
+        cov.extra["vm_compute_crosscheck"] = dict(requests=n_xc, disagreements=len(bad_xc), by_kind=kinds)
+        if bad_xc:
+            viols.append(violation("extraction-vs-vm_compute", f"{len(bad_xc)} of {n_xc} sampled requests: extracted driver and "
+                                   f"vm_compute disagree, first on '{bad_xc[0]['request'][:80]}'", False, disagreements=bad_xc[:5],
+                                   broken="extraction / ocaml/drv_c17.ml glue (or the cross-check's rendering)"))
+    del xc_stream[:]
 
     cov.extra["exhaustive"] = True
     cov.extra["exhaustive_part"] = (
@@ -1023,7 +1427,9 @@ def _run(ctx, tier, seed):
         "(body content is a fixed pattern: the code is content independent); ble response: every composition of bodies of "
         f"length 0..{9 if tier == 'quick' else 13} into fragments, every <=3-piece cut up to {24 if tier == 'quick' else 40} bytes, every position x 3 deltas of a "
         "wrong tid and every position of a missing flag in every fragmentation of 4- and 6-byte bodies, all 256 continuation "
-        "control bytes; coap ids: every id vector over {(1,52),(1,53),(2,52)} for n = 1..4 x every {okN,err} outcome vector "
+        "control bytes; ble histories: every history of 1..3 requests over {2 characteristics} x {plain, secure session} x "
+        "{0, 80, 300}-byte bodies on ONE real AIOHomeKitBleakClient object (its own determine_fragment_size), MTUs 100..515; "
+        "coap ids: every id vector over {(1,52),(1,53),(2,52)} for n = 1..4 x every {okN,err} outcome vector "
         "(+2 mixed) through read/write/subscribe/unsubscribe against an accessory that answers per wire position; "
         f"coap: every outcome vector over {{ok0, okN, err, errB, wrong-tid, wrong-control}} for n = 1..{5 if tier == 'quick' else 6}"
         + (" and over 5 kinds for n = 6" if tier == "quick" else ""))
